@@ -54,6 +54,11 @@ def template(kind, params=None):
         elif kind == 'lit':
             src = ('<dtml-in s start=%d end=%d size=%d orphan=%d overlap=%d>'
                    '%s<dtml-else>EMPTY</dtml-in>' % (params + (BODY,)))
+        elif kind in ('var-reverse', 'var-sort', 'var-sort-reverse'):
+            # the window is cut from the reversed / sorted sequence
+            src = ('<dtml-in s %s start=st end=en size=sz orphan=orp '
+                   'overlap=ov>%s<dtml-else>EMPTY</dtml-in>' % (
+                       kind[4:].replace('-', ' '), BODY))
         elif kind == 'varnum':
             # rows identified by their number: the elements themselves may
             # be None or other false values
@@ -253,10 +258,18 @@ def nontrivial(case):
     return False
 
 
-def walk(L, size, orphan, overlap):
-    """Follow next-sequence-start-number from 1, then previous-... back."""
+def walk(L, size, orphan, overlap, variant='var'):
+    """Follow next-sequence-start-number from 1, then previous-... back.
+    variant: the sequence is handed over reversed / shuffled and the tag
+    reverses / sorts it; the same list object is used for every step."""
     seq = list(range(1, L + 1))
-    t = template('var')
+    given = {'var': seq, 'var-reverse': seq[::-1],
+             'var-sort': seq[1::2] + seq[0::2],
+             'var-sort-reverse': seq[0::2] + seq[1::2][::-1]}[variant]
+    if variant == 'var-sort-reverse':
+        seq = seq[::-1]
+    expected_seq, seq = seq, given
+    t = template(variant)
     start, windows, steps = 1, [], 0
     if L == 0:
         return None
@@ -280,14 +293,19 @@ def walk(L, size, orphan, overlap):
             break
     msg = 'L=%d size=%d orphan=%d overlap=%d windows=%r' % (
         L, size, orphan, overlap, windows)
-    for a, b in zip(windows, windows[1:]):
-        if len(set(a) & set(b)) != overlap or b[0] != a[-1] + 1 - overlap:
-            return 'walk-overlap', msg
     flat = windows[0][:]
     for w in windows[1:]:
         flat.extend(w[overlap:])
-    if flat != seq:
-        return 'walk-cover', msg
+    if flat != expected_seq:
+        return 'walk-cover' + ('' if variant == 'var' else ':' + variant), \
+            msg
+    if variant != 'var':
+        if given != {'var-reverse': expected_seq[::-1]}.get(variant, given):
+            return 'walk-input-modified', msg
+        return None
+    for a, b in zip(windows, windows[1:]):
+        if len(set(a) & set(b)) != overlap or b[0] != a[-1] + 1 - overlap:
+            return 'walk-overlap', msg
     # walk back from the last window
     cur, steps = windows[-1][0], 0
     while cur > 1:
@@ -368,12 +386,15 @@ def run_shard(shard):
             for size in range(1, 8):
                 for orphan in R_ORPH:
                     for overlap in range(0, min(4, size)):
-                        case = ['walk', L, size, orphan, overlap]
-                        bad = walk(L, size, orphan, overlap)
-                        acc.case(case, L > size, klass='walk',
-                                 distinct_by_construction=True)
-                        if bad:
-                            acc.fail(bad[0], case, bad[1])
+                        for variant in ('var', 'var-reverse', 'var-sort',
+                                        'var-sort-reverse'):
+                            case = ['walk', L, size, orphan, overlap] + (
+                                [variant] if variant != 'var' else [])
+                            bad = walk(L, size, orphan, overlap, variant)
+                            acc.case(case, L > size, klass='walk:' + variant,
+                                     distinct_by_construction=True)
+                            if bad:
+                                acc.fail(bad[0], case, bad[1])
     else:
         def one(case):
             case = list(case)
